@@ -848,7 +848,13 @@ input::
         del _conditions; del conditions_
         # get measure collapse conditions
         if npts: #XXX: faster/better if comes first or last?
-            conditions += [cn.impose_measure( npts, [collapses[k] for k in collapses if k.startswith('CollapsePosition')], [collapses[k] for k in collapses if k.startswith('CollapseWeight')] )]
+            def _dict(c): # {measure:indices} from 'set' or 'where' format
+                if type(c) is dict: return c
+                d = {}
+                for (i,j) in (c if type(c) is set else zip(*c)):
+                    d.setdefault(i, set()).add(j)
+                return d
+            conditions += [cn.impose_measure( npts, [_dict(collapses[k]) for k in collapses if k.startswith('CollapsePosition')], [_dict(collapses[k]) for k in collapses if k.startswith('CollapseWeight')] )]
         # get updated constraints
         return to.chain(*conditions)(self._constraints)
 
